@@ -936,6 +936,26 @@ impl<'a> Exec<'a> {
                 None
             }
             Some((Some(aud), Some(nonce))) => {
+                // honest key-bound presentations from the holder are accepted: the unfaulted
+                // presentation, delivered with the session its KB-JWT was made for, must be accepted
+                // whenever the same message is accepted without a session (differential)
+                if fired.is_empty() && honest_base && case.wire.is_empty() && case.session == self.own_session(&case.base) && matches!(case.resolver, Resolver::Directory) {
+                    self.rep.count("oracle.c04.must_accept_checked");
+                    if matches!(vo.res(), Out::Err { .. }) {
+                        let (ok_without, _) = self.control_with(case, base, None);
+                        if ok_without {
+                            *tag = "honest-rejected".into();
+                            let nd = parsed.as_ref().map(|m| m.disclosures.len()).unwrap_or(0);
+                            return mk(
+                                "honest-key-bound-accepted",
+                                format!("c04:honest_rejected:{}", if nd == 0 { "no_disclosures" } else { "with_disclosures" }),
+                                json!({"verdict": vo.res().describe(), "session": case.session, "disclosures": nd, "format": case.fmt.name()}),
+                                fired,
+                                case,
+                            );
+                        }
+                    }
+                }
                 // legitimacy of the final (jwt, L, kb) for this verifier session
                 let reason = self.kb_illegit_reason(parsed, aud, nonce);
                 match &reason {
@@ -959,21 +979,6 @@ impl<'a> Exec<'a> {
                     None => {
                         self.rep.count("oracle.c04.legit");
                         *tag = "legit".into();
-                        // differential must-accept: honest, unfaulted, key-bound presentation whose
-                        // verification without a session is accepted
-                        if fired.is_empty() && honest_base && case.wire.is_empty() && !accepted {
-                            let (ok_without, _) = self.control_with(case, base, None);
-                            self.rep.count("oracle.c04.must_accept_checked");
-                            if ok_without && matches!(vo.res(), Out::Err { .. }) {
-                                return mk(
-                                    "honest-key-bound-accepted",
-                                    format!("c04:honest_rejected:{}", case.fmt.name()),
-                                    json!({"verdict": vo.res().describe(), "session": case.session}),
-                                    fired,
-                                    case,
-                                );
-                            }
-                        }
                     }
                 }
                 let _ = control_ok;
